@@ -39,9 +39,12 @@ package cloudprovider
 // when the provider returned no entry, a partial map or an error), unless the context is done.
 //@ func (*cloudProviderLookupDispatcher).doLookup
 //@   requires ld != nil && ld.cloudProvider != nil && ld.logger != nil
+//@   ensures  [queue] !ctxChan(ld.ipSource) ==> received(ld.ipSource) == old(received(ld.ipSource))
+//@   ensures  [queue] ld.ipSource == old(ld.ipSource) && ld.cloudProvider == old(ld.cloudProvider) && ld.logger == old(ld.logger) && ld.limiter == old(ld.limiter)
 //@   sendsite requires ch == ld.infoSink && val.IP == ip && val.Instance == instances[ip]
 //@   ensures  sent(ld.infoSink) <= old(sent(ld.infoSink)) + len(ips)
 //@   loop 1 invariant sent(ld.infoSink) == old(sent(ld.infoSink)) + rangeindex + 1 && ld.infoSink == old(ld.infoSink)
+//@   loop 1 invariant (!ctxChan(ld.ipSource) ==> received(ld.ipSource) == old(received(ld.ipSource))) && ld.ipSource == old(ld.ipSource) && ld.cloudProvider == old(ld.cloudProvider) && ld.logger == old(ld.logger) && ld.limiter == old(ld.limiter)
 //@   modifies everything
 
 // doRefresh: an entry is evicted exactly when it was last used more than the idle period before the tick; an
@@ -84,4 +87,16 @@ package cloudprovider
 //@   loop 1 step forall x gostatsd.InstanceInfo :: cntInfo(elems(ccp.toReturnInfo), off(ccp.toReturnInfo), len(ccp.toReturnInfo), x) + ite(toReturnInfoC != nil && toReturnInfo == x, 1, 0) + ite(sent(ccp.infoSinkSource) == prev(sent(ccp.infoSinkSource)) + 1 && lastsent(ccp.infoSinkSource) == x, 1, 0) == prev(cntInfo(elems(ccp.toReturnInfo), off(ccp.toReturnInfo), len(ccp.toReturnInfo), x)) + prev(ite(toReturnInfoC != nil && toReturnInfo == x, 1, 0)) + ite(calls(handleInstanceInfo) == prev(calls(handleInstanceInfo)) + 1 && lastreceived(ownInfoSource) == x, 1, 0)
 //@   loop 1 step sent(ccp.ipSinkSource) <= prev(sent(ccp.ipSinkSource)) + 1
 //@   loop 1 step forall x gostatsd.Source :: calls(doRefresh) == prev(calls(doRefresh)) ==> cntSrc(elems(ccp.toLookupIPs), off(ccp.toLookupIPs), len(ccp.toLookupIPs), x) + ite(toLookupC != nil && toLookupIP == x, 1, 0) + ite(sent(ccp.ipSinkSource) == prev(sent(ccp.ipSinkSource)) + 1 && lastsent(ccp.ipSinkSource) == x, 1, 0) == prev(cntSrc(elems(ccp.toLookupIPs), off(ccp.toLookupIPs), len(ccp.toLookupIPs), x)) + prev(ite(toLookupC != nil && toLookupIP == x, 1, 0))
+//@   modifies everything
+
+// run (the lookup dispatcher's batching loop): every source taken from the queue is in exactly one batch handed to
+// doLookup -- the batch is what was accumulated since the last lookup plus what arrived in this round, and the
+// accumulation starts empty again after a lookup.
+//@ func (*cloudProviderLookupDispatcher).run
+//@   requires ld != nil && ld.cloudProvider != nil && ld.logger != nil && ld.limiter != nil && !ctxChan(ld.ipSource)
+//@   callsite doLookup requires forall x gostatsd.Source :: cntSrc(elems(ips), off(ips), len(ips), x) == prev(cntSrc(elems(caller(ips)), off(caller(ips)), len(caller(ips)), x)) + ite(received(ld.ipSource) == prev(received(ld.ipSource)) + 1 && lastreceived(ld.ipSource) == x, 1, 0)
+//@   loop 1 invariant ld.ipSource == old(ld.ipSource) && ld.cloudProvider != nil && ld.logger != nil && ld.limiter != nil
+//@   loop 1 step calls(doLookup) == prev(calls(doLookup)) + 1 ==> len(ips) == 0
+//@   loop 1 step calls(doLookup) == prev(calls(doLookup)) ==> (forall x gostatsd.Source :: cntSrc(elems(ips), off(ips), len(ips), x) == prev(cntSrc(elems(ips), off(ips), len(ips), x)) + ite(received(ld.ipSource) == prev(received(ld.ipSource)) + 1 && lastreceived(ld.ipSource) == x, 1, 0))
+//@   loop 1 step calls(doLookup) <= prev(calls(doLookup)) + 1 && received(ld.ipSource) <= prev(received(ld.ipSource)) + 1
 //@   modifies everything
